@@ -220,9 +220,9 @@ func (r linkDestinationReplacer) scanInlineLinks(line []byte, lineStart int, src
 				run := countRun(line, i, '`')
 				if run == codeSpanLen && (i+run >= len(line) || line[i+run] != '`') {
 					codeSpanLen = 0
-					i += run
-					continue
 				}
+				i += run
+				continue
 			}
 			i++
 			continue
